@@ -118,7 +118,7 @@ type Exec struct {
 	tolerant      bool // init mode: unsupported => opaque
 	ufSeen        map[string]bool
 	fresh         int
-	lockHeld      map[*Cell]bool
+	lockHeld map[*Cell]int
 	ghost         map[string]Value
 	feasQ         int
 	bufInputs     []BufInput
@@ -197,8 +197,11 @@ func (e *Exec) load(c *Cell) Value {
 func (e *Exec) checkWatch(c *Cell, what string) {
 	if mu, ok := e.watch[c]; ok && !e.watchOff {
 		e.watchHits++
-		if !e.lockHeld[mu] {
+		switch {
+		case e.lockHeld[mu] == 0:
 			e.check("assert", "lock:unlocked-"+what+"@"+e.frame.fn.Name(), smt.False)
+		case what == "write" && e.lockHeld[mu] == 1:
+			e.check("assert", "lock:write-under-read-lock@"+e.frame.fn.Name(), smt.False)
 		}
 	}
 }
@@ -206,8 +209,11 @@ func (e *Exec) checkWatch(c *Cell, what string) {
 func (e *Exec) checkWatchBuf(b *SymBuf, what string) {
 	if mu, ok := e.watchBuf[b]; ok && !e.watchOff {
 		e.watchHits++
-		if !e.lockHeld[mu] {
+		switch {
+		case e.lockHeld[mu] == 0:
 			e.check("assert", "lock:unlocked-"+what+"@"+e.frame.fn.Name(), smt.False)
+		case what == "write" && e.lockHeld[mu] == 1:
+			e.check("assert", "lock:write-under-read-lock@"+e.frame.fn.Name(), smt.False)
 		}
 	}
 }
